@@ -121,14 +121,19 @@ func (t *mixedTable) next(k Value) (next Value, v Value, ok bool) {
 		i, isInt = ToIntNoString(k)
 	}
 	if isInt {
-		j, v, ok := t.array.next(i)
-		if ok {
-			if j > 0 {
-				return IntValue(j), v, true
+		// Only nil (the start of the traversal) and strictly positive integers
+		// are looked up in the array: the key 0 lives in the hash table and
+		// must not be mistaken for the start of the array traversal.
+		if k.IsNil() || i > 0 {
+			j, v, ok := t.array.next(i)
+			if ok {
+				if j > 0 {
+					return IntValue(j), v, true
+				}
+				// In this case we have run out of values in the array, so start the
+				// hash table.
+				return t.hashTable.next(NilValue)
 			}
-			// In this case we have run out of values in the array, so start the
-			// hash table.
-			return t.hashTable.next(NilValue)
 		}
 		k = IntValue(i)
 	}
